@@ -1,3 +1,180 @@
 import Rscp.Model.Timing
 import Rscp.Props.C16
 import Rscp.Lemmas.Client
+namespace Rscp.Model
+open Rscp
+
+/-! ## the instrumented machine -/
+
+theorem sendMultipleIO_fst (cred : Cred) (st : CState) (reqs : List Msg) (sc : Script) :
+    (sendMultipleIO cred st reqs sc).1 = sendMultiple cred st reqs sc := by
+  unfold sendMultipleIO
+  simp only []
+  split
+  · rfl
+  · split
+    · split <;> rfl
+    · rfl
+
+theorem sendFrameIO_snd (st : CState) (ms : List Msg) (w : Bool) (r : Reply) :
+    List.Sublist (sendFrameIO st ms w r).2 [Blk.write] := by
+  unfold sendFrameIO
+  simp only []
+  split
+  · exact List.Sublist.refl _
+  · exact List.nil_sublist _
+
+theorem receiveIO_snd (st : CState) : List.Sublist (receiveIO st).2 [Blk.recv] := by
+  unfold receiveIO
+  simp only []
+  split
+  · exact List.Sublist.refl _
+  · exact List.nil_sublist _
+
+/-- a `write` log followed by nothing or by a `recv` log -/
+theorem write_then_sublist {w r : List Blk} (hw : List.Sublist w [Blk.write]) (hr : List.Sublist r [Blk.recv]) :
+    List.Sublist (w ++ r) [Blk.write, Blk.recv] := List.Sublist.append hw hr
+
+theorem write_only_sublist {w : List Blk} (hw : List.Sublist w [Blk.write]) :
+    List.Sublist w [Blk.write, Blk.recv] := by
+  have := List.Sublist.append hw (List.nil_sublist [Blk.recv])
+  simpa using this
+
+theorem authenticateIO_snd (cred : Cred) (st : CState) (sc : Script) :
+    List.Sublist (authenticateIO cred st sc).2 [Blk.write, Blk.recv] := by
+  unfold authenticateIO
+  have hw := sendFrameIO_snd st (authRequest cred.user cred.password) sc.writeOk sc.auth
+  generalize sendFrameIO st (authRequest cred.user cred.password) sc.writeOk sc.auth = p at hw ⊢
+  obtain ⟨⟨st1, r, ev⟩, io1⟩ := p
+  cases r with
+  | ok u => exact write_then_sublist hw (receiveIO_snd st1)
+  | err e => exact write_only_sublist hw
+  | panic => exact write_only_sublist hw
+
+/-- the part of a call after the connection is there: authentication and request -/
+theorem connectedIO_shape {ρ : Type} (r : ρ) (d : List Blk) (hd : d.Sublist [Blk.dial]) (cred : Cred) (st0 : CState)
+    (reqs : List Msg) (sc : Script) :
+    ∃ d' a u : List Blk,
+      (match (if st0.authed then ((st0, Res.ok (), ([] : List Ev)), ([] : List Blk))
+              else authenticateIO cred st0 sc).1 with
+        | (st1, .ok (), _) =>
+          match sendFrameIO st1 reqs sc.writeOk sc.user with
+          | ((st2, .ok (), _), io2) =>
+            (r, d ++ (if st0.authed then ((st0, Res.ok (), ([] : List Ev)), ([] : List Blk))
+                      else authenticateIO cred st0 sc).2 ++ io2 ++ (receiveIO st2).2)
+          | (_, io2) =>
+            (r, d ++ (if st0.authed then ((st0, Res.ok (), ([] : List Ev)), ([] : List Blk))
+                      else authenticateIO cred st0 sc).2 ++ io2)
+        | _ => (r, d ++ (if st0.authed then ((st0, Res.ok (), ([] : List Ev)), ([] : List Blk))
+                         else authenticateIO cred st0 sc).2)).2 = d' ++ a ++ u ∧
+      d'.Sublist [Blk.dial] ∧ a.Sublist [Blk.write, Blk.recv] ∧ u.Sublist [Blk.write, Blk.recv] := by
+  have ha : List.Sublist (if st0.authed then ((st0, Res.ok (), ([] : List Ev)), ([] : List Blk))
+      else authenticateIO cred st0 sc).2 [Blk.write, Blk.recv] := by
+    split
+    · exact List.nil_sublist _
+    · exact authenticateIO_snd cred st0 sc
+  generalize (if st0.authed then ((st0, Res.ok (), ([] : List Ev)), ([] : List Blk))
+      else authenticateIO cred st0 sc) = A at ha ⊢
+  obtain ⟨⟨st1, r1, ev1⟩, aio⟩ := A
+  cases r1 with
+  | err e => exact ⟨d, aio, [], (List.append_nil _).symm, hd, ha, List.nil_sublist _⟩
+  | panic => exact ⟨d, aio, [], (List.append_nil _).symm, hd, ha, List.nil_sublist _⟩
+  | ok u =>
+    obtain ⟨⟩ := u
+    dsimp only
+    have hw := sendFrameIO_snd st1 reqs sc.writeOk sc.user
+    generalize sendFrameIO st1 reqs sc.writeOk sc.user = p at hw ⊢
+    obtain ⟨⟨st2, r2, ev2⟩, io2⟩ := p
+    cases r2 with
+    | ok u2 => exact ⟨d, aio, io2 ++ (receiveIO st2).2, (List.append_assoc _ _ _), hd, ha, write_then_sublist hw (receiveIO_snd st2)⟩
+    | err e => exact ⟨d, aio, io2, rfl, hd, ha, write_only_sublist hw⟩
+    | panic => exact ⟨d, aio, io2, rfl, hd, ha, write_only_sublist hw⟩
+
+theorem sendMultipleIO_snd (cred : Cred) (st : CState) (reqs : List Msg) (sc : Script) :
+    ∃ d a u : List Blk, (sendMultipleIO cred st reqs sc).2 = d ++ a ++ u ∧
+      List.Sublist d [Blk.dial] ∧ List.Sublist a [Blk.write, Blk.recv] ∧ List.Sublist u [Blk.write, Blk.recv] := by
+  rcases st with ⟨_ | p, authed, conns⟩
+  · unfold sendMultipleIO
+    simp only [Option.isNone_none, Bool.true_and]
+    by_cases hdl : (!sc.dialOk) = true
+    · rw [if_pos hdl]
+      exact ⟨[Blk.dial], [], [], rfl, List.Sublist.refl _, List.nil_sublist _, List.nil_sublist _⟩
+    · rw [if_neg hdl]
+      exact connectedIO_shape (sendMultiple cred ⟨none, authed, conns⟩ reqs sc) [Blk.dial] (List.Sublist.refl _) cred
+        ⟨some (conns, []), authed, conns + 1⟩ reqs sc
+  · unfold sendMultipleIO
+    simp only [Option.isNone_some, Bool.false_and]
+    rw [if_neg (by decide)]
+    exact connectedIO_shape (sendMultiple cred ⟨some p, authed, conns⟩ reqs sc) [] (List.nil_sublist _) cred
+      ⟨some p, authed, conns⟩ reqs sc
+
+theorem sendMultipleIO_sublist (cred : Cred) (st : CState) (reqs : List Msg) (sc : Script) :
+    List.Sublist (sendMultipleIO cred st reqs sc).2 [Blk.dial, Blk.write, Blk.recv, Blk.write, Blk.recv] := by
+  obtain ⟨d, a, u, h, hd, ha, hu⟩ := sendMultipleIO_snd cred st reqs sc
+  rw [h]
+  exact List.Sublist.append (List.Sublist.append hd ha) hu
+
+/-! ## sums of durations and budgets -/
+
+theorem sum_le_map_sum {β : Type} (b : β → Int) : ∀ (dur : List Int) (l : List β) (hlen : dur.length = l.length),
+    (∀ i (h : i < dur.length), dur[i] ≤ b (l[i]'(hlen ▸ h))) → dur.sum ≤ (l.map b).sum
+  | [], [], _, _ => by simp
+  | [], _ :: _, hlen, _ => by simp at hlen
+  | _ :: _, [], hlen, _ => by simp at hlen
+  | d :: ds, x :: xs, hlen, h => by
+    have h0 : d ≤ b x := h 0 (by simp)
+    have ih := sum_le_map_sum b ds xs (by simpa using hlen) (fun i hi => by
+      have := h (i + 1) (by simpa using hi)
+      simpa using this)
+    simp only [List.sum_cons, List.map_cons]
+    omega
+
+theorem map_sum_le_of_sublist {β : Type} (b : β → Int) (hb : ∀ x, 0 ≤ b x) {l L : List β} (h : List.Sublist l L) :
+    (l.map b).sum ≤ (L.map b).sum := by
+  induction h with
+  | slnil => simp
+  | cons a _ ih => have := hb a; simp only [List.map_cons, List.sum_cons]; omega
+  | cons_cons a _ ih => simp only [List.map_cons, List.sum_cons]; omega
+
+theorem budget_nonneg (c : Config) (h : 0 ≤ c.connTimeout ∧ 0 ≤ c.sendTimeout ∧ 0 ≤ c.recvTimeout) :
+    ∀ x, 0 ≤ budget c x
+  | .dial => h.1
+  | .write => h.2.1
+  | .recv => h.2.2
+
+theorem full_budget (c : Config) : ([Blk.dial, Blk.write, Blk.recv, Blk.write, Blk.recv].map (budget c)).sum =
+    c.connTimeout + 2 * c.sendTimeout + 2 * c.recvTimeout := by
+  simp only [List.map_cons, List.map_nil, List.sum_cons, List.sum_nil, budget]
+  omega
+
+/-! ## one absolute deadline against a re-armed one -/
+
+theorem recvReturnsAt_le (R t0 : Int) : ∀ (arrivals : List Int) (k : Nat), recvReturnsAt R t0 arrivals k ≤ t0 + R
+  | [], _ => by simp [recvReturnsAt]
+  | a :: rest, k => by
+    unfold recvReturnsAt
+    split
+    · exact Int.le_refl _
+    · split
+      · omega
+      · exact recvReturnsAt_le R t0 rest _
+
+/-- a trickling peer: one read completes every time unit, starting one unit after `t` -/
+def trickle : Int → Nat → List Int
+  | _, 0 => []
+  | t, n+1 => (t + 1) :: trickle (t + 1) n
+
+/-- with a re-armed deadline of at least 2 units, `n+1` trickled reads hold the call until `t + (n+1)` -/
+theorem rearmed_trickle (R : Int) (hR : 2 ≤ R) : ∀ (n : Nat) (t : Int),
+    recvReturnsAtRearmed R t (trickle t (n + 1)) n = t + (n + 1)
+  | 0, t => by
+    simp only [trickle, recvReturnsAtRearmed]
+    rw [if_neg (by omega)]
+    omega
+  | n+1, t => by
+    have ih := rearmed_trickle R hR n (t + 1)
+    rw [trickle, recvReturnsAtRearmed, if_neg (by omega)]
+    rw [ih]
+    omega
+
+end Rscp.Model
